@@ -252,6 +252,35 @@ def random_stream(ctx, order, ntrees, autoref):
                 if r != sgn * u:
                     ctx.violation('C05:roundtrip', f'add_expr(to_expr({sgn * u})) = {r}', M.case())
     M.check_table('C05:table')
+    # printing again after a collection: freed numbers are taken by other functions (no
+    # reordering in between); every printed text must still denote its node
+    if not autoref:
+        import re
+        for _ in range(3):
+            for (u, _) in nodes:
+                M.op('decref', u)
+            nodes = []
+            M.op('gc', None)
+            for _ in range(3):
+                t = rng.getrandbits(1 << N)
+                u = M.build(t)
+                if u is not None and abs(u) != 1:
+                    M.op('incref', u)
+                    nodes.append((u, t))
+            for u in list(M.b._succ):
+                for sgn in (1, -1):
+                    text = M.op('to_expr', sgn * u)
+                    if text is None:
+                        continue
+                    toks = re.findall(r"[A-Za-z_][A-Za-z0-9_'.]*|[(),~]", text)
+                    r = M.op('add_expr', Spellings(toks))
+                    ctx.case(('roundtrip-after-gc', order, text), abs(u) != 1)
+                    ctx.count('roundtrip-after-gc')
+                    if r != sgn * u:
+                        ctx.violation('C05:roundtrip',
+                                      f'after a collection and re-use of node numbers: add_expr(to_expr({sgn * u})) = {r}',
+                                      M.case())
+                        return
     ctx.sample(dict(stream=s.label, first_lines=s.lines[:6]))
 
 
